@@ -366,6 +366,9 @@ def id_use(chk, program):
     """every frame-level writer obtains the identifier from _build_header(PGN, source, destination, priority) of the message being
     written, in those roles, afresh for each message (no state between messages)"""
     from .. import wire as Wr, absint as Ab
+    # no identifier (or anything else) is kept on the encoder between messages: an attribute written and read after construction is state (C02's ENC-STATE clause)
+    from .. import rules_enc as _RE
+    _RE.enc_state_attrs(chk, program, 'ID-USE')
     want = [('pgn', 18), ('src', 8), ('dst', 8), ('prio', 3)]
     for meth in ('encode_ebyte', 'encode_usb', 'encode_yacht_devices'):
         fn = program.fn('encoder', f"NMEA2000Encoder.{meth}")
